@@ -53,11 +53,17 @@ func c07RowTotals(s *MultiItem) (count, sum, sumsq float64, mins, maxs []float64
 	return
 }
 
+// symbolic values: sums are products of two solver variables (non-linear), so that mode checks
+// count, min and max only; the concrete-value mode checks the sums
+var c07SymbolicValues bool
+
 func c07Check(tag string, s *MultiItem, want *c07Totals) {
 	count, sum, sumsq, mins, maxs := c07RowTotals(s)
 	v.Assert("C07."+tag+".count_conserved", count == want.count)
-	v.Assert("C07."+tag+".sum_conserved", sum == want.sum)
-	v.Assert("C07."+tag+".sumsq_conserved", sumsq == want.sumsq)
+	if !c07SymbolicValues {
+		v.Assert("C07."+tag+".sum_conserved", sum == want.sum)
+		v.Assert("C07."+tag+".sumsq_conserved", sumsq == want.sumsq)
+	}
 	if want.set {
 		v.Assert("C07."+tag+".some_value_kept", len(mins) > 0)
 		lower, attained, upper, attainedMax := true, false, true, false
@@ -95,7 +101,12 @@ func c07Run(n int, withValues bool) {
 		mv := s.MapStringTop(rng, capacity, tag, cnt)
 		if withValues {
 			// concrete value list keeps value*count and value*value*count linear in the symbolic count
-			val := []float64{-3, 5}[v.Choice(2)]
+			val := 0.0
+			if c07SymbolicValues {
+				val = v.NondetFloatInt(-100, 100)
+			} else {
+				val = []float64{-3, 5}[v.Choice(2)]
+			}
 			mv.AddValueCounterHost(rng, val, cnt, TagUnion{I: 1})
 			want.add(val, cnt)
 		} else {
@@ -140,6 +151,10 @@ func c07Run(n int, withValues bool) {
 	v.Reach("C07.end")
 }
 
+func Harness_C07_minmax_3events() {
+	c07SymbolicValues = true
+	c07Run(3, true)
+}
 func Harness_C07_values_2events()   { c07Run(2, true) }
 func Harness_C07_values_3events()   { c07Run(3, true) }
 func Harness_C07_counters_3events() { c07Run(3, false) }
